@@ -16,6 +16,7 @@ use cipher::{
 use core::fmt;
 use core::marker::PhantomData;
 use std::alloc::{Layout, alloc_zeroed, dealloc};
+use std::any::Any;
 
 // ------------------------------------------------------------------ enums
 
@@ -381,6 +382,9 @@ pub trait BlkObj: Send {
     fn oneshot(self: Box<Self>, form: Form, inp: &[u8], out: &mut [u8]) -> Option<bool>;
     fn drop_scan(self: Box<Self>) -> DropScan;
     fn poke(&mut self, off: usize, mask: &[u8]);
+    fn as_any(&self) -> &dyn Any;
+    /// `Clone::clone_from(self, src)`; false = `src` is another type or the type is not Clone
+    fn clone_from_obj(&mut self, src: &dyn BlkObj) -> bool;
 }
 
 pub struct EncAd<M> {
@@ -576,6 +580,18 @@ where
     fn poke(&mut self, off: usize, mask: &[u8]) {
         poke_raw(self, off, mask)
     }
+    fn as_any(&self) -> &dyn Any {
+        self
+    }
+    fn clone_from_obj(&mut self, src: &dyn BlkObj) -> bool {
+        match src.as_any().downcast_ref::<Self>() {
+            Some(o) => {
+                self.m.clone_from(&o.m);
+                true
+            }
+            None => false,
+        }
+    }
 }
 
 impl<M> BlkObj for DecAd<M>
@@ -667,6 +683,18 @@ where
     }
     fn poke(&mut self, off: usize, mask: &[u8]) {
         poke_raw(self, off, mask)
+    }
+    fn as_any(&self) -> &dyn Any {
+        self
+    }
+    fn clone_from_obj(&mut self, src: &dyn BlkObj) -> bool {
+        match src.as_any().downcast_ref::<Self>() {
+            Some(o) => {
+                self.m.clone_from(&o.m);
+                true
+            }
+            None => false,
+        }
     }
 }
 
@@ -771,6 +799,9 @@ pub trait BufObj: Send {
     fn alg_name(&self) -> String;
     fn drop_scan(self: Box<Self>) -> DropScan;
     fn poke(&mut self, off: usize, mask: &[u8]);
+    fn as_any(&self) -> &dyn Any;
+    /// `Clone::clone_from(self, src)`; false = `src` is another type or the type is not Clone
+    fn clone_from_obj(&mut self, src: &dyn BufObj) -> bool;
 }
 
 pub struct BufEncAd<C: cipher::BlockCipherEncrypt>(cfb_mode::BufEncryptor<C>);
@@ -805,6 +836,18 @@ where
     fn poke(&mut self, off: usize, mask: &[u8]) {
         poke_raw(self, off, mask)
     }
+    fn as_any(&self) -> &dyn Any {
+        self
+    }
+    fn clone_from_obj(&mut self, src: &dyn BufObj) -> bool {
+        match src.as_any().downcast_ref::<Self>() {
+            Some(o) => {
+                self.0.clone_from(&o.0);
+                true
+            }
+            None => false,
+        }
+    }
 }
 impl<C> BufObj for BufDecAd<C>
 where
@@ -834,6 +877,18 @@ where
     }
     fn poke(&mut self, off: usize, mask: &[u8]) {
         poke_raw(self, off, mask)
+    }
+    fn as_any(&self) -> &dyn Any {
+        self
+    }
+    fn clone_from_obj(&mut self, src: &dyn BufObj) -> bool {
+        match src.as_any().downcast_ref::<Self>() {
+            Some(o) => {
+                self.0.clone_from(&o.0);
+                true
+            }
+            None => false,
+        }
     }
 }
 
@@ -900,6 +955,9 @@ pub trait StreamObj: Send {
     fn alg_name(&self) -> String;
     fn drop_scan(self: Box<Self>) -> DropScan;
     fn poke(&mut self, off: usize, mask: &[u8]);
+    fn as_any(&self) -> &dyn Any;
+    /// `Clone::clone_from(self, src)`; false = `src` is another type or the type is not Clone
+    fn clone_from_obj(&mut self, src: &dyn StreamObj) -> bool;
 }
 
 pub struct StreamAd<T: StreamCipherCore> {
@@ -909,6 +967,7 @@ pub struct StreamAd<T: StreamCipherCore> {
     bposf: Option<fn(&T) -> u128>,
     ivf: Option<fn(&T) -> Vec<u8>>,
     clonef: Option<fn(&StreamCipherCoreWrapper<T>) -> StreamCipherCoreWrapper<T>>,
+    clonefromf: Option<fn(&mut StreamCipherCoreWrapper<T>, &StreamCipherCoreWrapper<T>)>,
 }
 
 fn seek_impl<T: StreamCipherSeekCore>(w: &mut StreamCipherCoreWrapper<T>, ty: SeekTy, pos: u128) -> bool {
@@ -937,6 +996,9 @@ fn bpos_impl<T: StreamCipherSeekCore>(c: &T) -> u128 {
 }
 fn clone_impl<T: StreamCipherCore + Clone>(w: &StreamCipherCoreWrapper<T>) -> StreamCipherCoreWrapper<T> {
     w.clone()
+}
+fn clone_from_impl<T: StreamCipherCore + Clone>(dst: &mut StreamCipherCoreWrapper<T>, src: &StreamCipherCoreWrapper<T>) {
+    dst.clone_from(src)
 }
 
 impl<T> StreamObj for StreamAd<T>
@@ -984,6 +1046,7 @@ where
             bposf: self.bposf,
             ivf: self.ivf,
             clonef: self.clonef,
+            clonefromf: self.clonefromf,
         }))
     }
     fn debug(&self) -> String {
@@ -1003,6 +1066,18 @@ where
     }
     fn poke(&mut self, off: usize, mask: &[u8]) {
         poke_raw(self, off, mask)
+    }
+    fn as_any(&self) -> &dyn Any {
+        self
+    }
+    fn clone_from_obj(&mut self, src: &dyn StreamObj) -> bool {
+        match (src.as_any().downcast_ref::<Self>(), self.clonefromf) {
+            (Some(o), Some(f)) => {
+                f(&mut self.w, &o.w);
+                true
+            }
+            _ => false,
+        }
     }
 }
 
@@ -1029,6 +1104,7 @@ where
         bposf: Some(bpos_impl::<T>),
         ivf: Some(ivf_of::<T>),
         clonef: cloneable,
+        clonefromf: None,
     })
 }
 
@@ -1065,6 +1141,7 @@ where
         bposf: Some(bpos_impl::<T>),
         ivf: Some(ivf_of::<T>),
         clonef: Some(clone_impl::<T>),
+        clonefromf: Some(clone_from_impl::<T>),
     }))
 }
 /// seekable but not Clone (BeltCtrCore)
@@ -1081,6 +1158,7 @@ where
         bposf: Some(bpos_impl::<T>),
         ivf: Some(ivf_of::<T>),
         clonef: None,
+        clonefromf: None,
     }))
 }
 /// seekable, encrypt-only cipher (no IvState for Belt; CTR has IvState always)
@@ -1097,6 +1175,7 @@ where
         bposf: Some(bpos_impl::<T>),
         ivf: None,
         clonef: None,
+        clonefromf: None,
     }))
 }
 /// not seekable (OFB)
@@ -1113,6 +1192,7 @@ where
         bposf: None,
         ivf: Some(ivf_of::<T>),
         clonef: Some(clone_impl::<T>),
+        clonefromf: Some(clone_from_impl::<T>),
     }))
 }
 pub fn mk_stream_at<T>(key: &[u8], iv: &[u8], pos: u128) -> Box<dyn StreamObj>
@@ -1191,6 +1271,9 @@ pub trait CoreObj: Send {
     fn alg_name(&self) -> String;
     fn drop_scan(self: Box<Self>) -> DropScan;
     fn poke(&mut self, off: usize, mask: &[u8]);
+    fn as_any(&self) -> &dyn Any;
+    /// `Clone::clone_from(self, src)`; false = `src` is another type or the type is not Clone
+    fn clone_from_obj(&mut self, src: &dyn CoreObj) -> bool;
 }
 
 pub struct CoreAd<T: StreamCipherCore> {
@@ -1199,6 +1282,7 @@ pub struct CoreAd<T: StreamCipherCore> {
     setf: Option<fn(&mut T, u128)>,
     ivf: Option<fn(&T) -> Vec<u8>>,
     clonef: Option<fn(&T) -> T>,
+    clonefromf: Option<fn(&mut T, &T)>,
 }
 
 fn set_impl<T: StreamCipherSeekCore>(c: &mut T, p: u128)
@@ -1210,6 +1294,9 @@ where
 }
 fn clone_core<T: Clone>(c: &T) -> T {
     c.clone()
+}
+fn clone_from_core<T: Clone>(dst: &mut T, src: &T) {
+    dst.clone_from(src)
 }
 
 impl<T> CoreObj for CoreAd<T>
@@ -1275,6 +1362,7 @@ where
             setf: self.setf,
             ivf: self.ivf,
             clonef: self.clonef,
+            clonefromf: self.clonefromf,
         }))
     }
     fn debug(&self) -> String {
@@ -1291,6 +1379,18 @@ where
     }
     fn poke(&mut self, off: usize, mask: &[u8]) {
         poke_raw(self, off, mask)
+    }
+    fn as_any(&self) -> &dyn Any {
+        self
+    }
+    fn clone_from_obj(&mut self, src: &dyn CoreObj) -> bool {
+        match (src.as_any().downcast_ref::<Self>(), self.clonefromf) {
+            (Some(o), Some(f)) => {
+                f(&mut self.c, &o.c);
+                true
+            }
+            _ => false,
+        }
     }
 }
 
@@ -1316,6 +1416,7 @@ where
         setf: Some(set_impl::<T>),
         ivf: Some(ivf_of::<T>),
         clonef: Some(clone_core::<T>),
+        clonefromf: Some(clone_from_core::<T>),
     }))
 }
 pub fn mk_core_seek_noclone<T>(ctor: Ctor, key: &[u8], iv: &[u8]) -> Result<Box<dyn CoreObj>, ()>
@@ -1331,6 +1432,7 @@ where
         setf: Some(set_impl::<T>),
         ivf: Some(ivf_of::<T>),
         clonef: None,
+        clonefromf: None,
     }))
 }
 pub fn mk_core_seek_noclone_noiv<T>(ctor: Ctor, key: &[u8], iv: &[u8]) -> Result<Box<dyn CoreObj>, ()>
@@ -1346,6 +1448,7 @@ where
         setf: Some(set_impl::<T>),
         ivf: None,
         clonef: None,
+        clonefromf: None,
     }))
 }
 pub fn mk_core_plain<T>(ctor: Ctor, key: &[u8], iv: &[u8]) -> Result<Box<dyn CoreObj>, ()>
@@ -1360,6 +1463,7 @@ where
         setf: None,
         ivf: Some(ivf_of::<T>),
         clonef: Some(clone_core::<T>),
+        clonefromf: Some(clone_from_core::<T>),
     }))
 }
 
